@@ -27,13 +27,13 @@ ASSUMPTIONS = ['exactq integer/rational arithmetic is correct',
                'the decision about the unrounded rational is only recorded as an observation',
                'nint_distance is not called on integers with more than 2*10^5 bits (the result could not be materialised)',
                'truth-valued helpers are compared by truth value; non-bool return objects are recorded as observations']
-LEVEL_TEXT = ('exploration: ~4*10^5 (quick) / ~8*10^6 (thorough) helper calls on the real code, every result decided by exact integer '
+LEVEL_TEXT = ('exploration: ~4*10^5 (quick) / ~5*10^6 (thorough) helper calls on the real code, every result decided by exact integer '
               'arithmetic from the definitions; generators aim at half-integers, k+-2^-j, powers of two, specials and huge exponents')
 LEVEL_NOTE = 'trusted base vf/exactq.py; the nint_distance window [2^(d-2), 2^(d+1)] is fixed from the docstring examples, observed deviation reported'
 TECHNIQUE = 'runtime reference-model monitor: exact definitional oracle on every observed helper result'
 
 NSHARDS = 16
-VALUES = {'quick': 2200, 'thorough': 45000}
+VALUES = {'quick': 2200, 'thorough': 30000}
 PREDS = ['isnan', 'isinf', 'isfinite', 'isnormal', 'isint', 'isint_g', 'isnpint']
 MAXINT_BITS = 200000
 
